@@ -1,6 +1,7 @@
 import Vata.Parse
 import Vata.Generated.Tables
 import Vata.InclUp
+import Vata.InclDown
 import Vata.Compl
 import Vata.IsectModel
 import Vata.Candidate
@@ -78,6 +79,18 @@ def checkIncl (args res : List String) : Except String (Findings × String) := d
     if bchar b != chars[0]! then f := f ++ [s!"mismatch upward-model verdict {bchar b} implementation {chars[0]!}"]
     if b != exp then throw "internal: certifying upward model contradicts the reference"
   | none => f := f ++ ["mismatch upward-model returned none (fuel / certificate)"]
+  -- the L2 models of the downward algorithms (`checkInclDownRec_iff/_total`, `checkInclDownNonrec_iff/_total`): on small
+  -- operands, and where the implementation answered within its budget, they must return and agree with it
+  if A.states.length + B.states.length ≤ 7 then
+    for (name, ix, mo) in [("down-rec", 4, checkInclDownRec A B 100000), ("down-rec-opt", 6, checkInclDownRec A B 100000),
+        ("down-nonrec", 2, checkInclDownNonrec A B 100000)] do
+      let c := chars[ix]!
+      if c == 'T' then continue
+      match mo with
+      | some (b, _) =>
+        if bchar b != c then f := f ++ [s!"mismatch {name}-model verdict {bchar b} implementation {c}"]
+        if b != exp then throw s!"internal: certifying {name} model contradicts the reference"
+      | none => f := f ++ [s!"mismatch {name}-model returned none (fuel / certificate)"]
   let ne ← emptyE A
   let tag := s!"incl={bchar exp} emptyA={bchar ne} overrun={over}"
   pure (f, tag)
